@@ -2,6 +2,7 @@ SPECIFICATION Spec
 CONSTANTS Pool <- PoolF  Probes <- ProbesF  MaxIns = 4  MaxBatch = 3  Modes <- AllModes  SortVariant = "offset"  EmptyGuard = TRUE
 INVARIANT NoOOB
 INVARIANT QueriesExact
+INVARIANT TreeQueryExact
 INVARIANT WellFormed
 INVARIANT RefinesJudge
 INVARIANT RootBoxIsUnion
